@@ -290,7 +290,19 @@ def real_module(recs):
 def truth_array(case):
     import numpy as np
     g = np.random.default_rng(case["seed"])
-    return (g.random((case["H"], case["W"])) * 100.0 + 1.0).astype(case["dtype"])
+    a = (g.random((case["H"], case["W"])) * 100.0 + 1.0).astype(case["dtype"])
+    # defined pixels that are easily mistaken for undefined ones (only NaN is undefined): infinities, both zeros, the
+    # largest / smallest magnitudes of the type, negative data - single pixels everywhere (overlaps, borders of the inputs,
+    # tile edges) and a few small blocks
+    fi = np.finfo(a.dtype)
+    special = np.array([np.inf, -np.inf, 0.0, -0.0, fi.max, -fi.max, fi.tiny, fi.smallest_subnormal, -1.0, -fi.eps], dtype=a.dtype)
+    n = a.size
+    idx = g.choice(n, size=max(8, n // 150), replace=False)
+    a.flat[idx] = special[g.integers(0, len(special), size=len(idx))]
+    for _ in range(6):
+        y, x = int(g.integers(0, case["H"])), int(g.integers(0, case["W"]))
+        a[y:y + 5, x:x + 7] = special[int(g.integers(0, len(special)))]
+    return a
 
 
 def display_array(case, truth, k):
@@ -379,9 +391,24 @@ def paste_by_segments(exp, disps, dtype, rowkey):
     return tiles
 
 
-def same(a, b):
+def _bits(a):
     import numpy as np
-    return a.shape == b.shape and bool(np.array_equal(a, b, equal_nan=True))
+    n = np.ascontiguousarray(a, dtype=a.dtype.newbyteorder("="))          # FITS arrays are big-endian
+    return n.view("u%d" % n.dtype.itemsize)
+
+
+def diffmask(a, b):
+    """Pixels that differ at bit level (0.0 / -0.0 differ, +inf / -inf / huge / subnormal values must survive exactly);
+    two NaNs are the same undefined pixel.  None if shape or float type differ."""
+    import numpy as np
+    if a.shape != b.shape or a.dtype.kind != "f" or b.dtype.kind != "f" or a.dtype.itemsize != b.dtype.itemsize:
+        return None
+    return ~((_bits(a) == _bits(b)) | (np.isnan(a) & np.isnan(b)))
+
+
+def same(a, b):
+    m = diffmask(a, b)
+    return m is not None and not bool(m.any())
 
 
 def read_tiles(out, fmt, lev):
@@ -436,10 +463,10 @@ def compare_tiles(got, want, what, res, key, rep):
     for p in sorted(got):
         g, w = got[p], want[p]
         if not same(g, w):
-            if g.shape != w.shape:
-                msg = "shape %s, expected %s" % (g.shape, w.shape)
+            bad = diffmask(g, w)
+            if bad is None:
+                msg = "shape %s type %s, expected %s %s" % (g.shape, g.dtype, w.shape, w.dtype)
             else:
-                bad = ~((g == w) | (np.isnan(g) & np.isnan(w)))
                 ys, xs = np.nonzero(bad)
                 lost = int(np.sum(bad & np.isnan(g)))
                 ghost = int(np.sum(bad & np.isnan(w)))
@@ -729,7 +756,7 @@ def replay_group(args):
         else:
             ok = compare_tiles(got, want[fmt], "%s run, %s tiles, against the paste predicted by the specification" % (mkey, fmt), res, key + ":tiles", rrep)
         if fmt in single and ok:
-            sgl = {p: np.full((T, T), np.nan) for p in want[fmt]}
+            sgl = {p: np.full((T, T), np.nan, dtype=truth.dtype) for p in want[fmt]}
             sgl.update(single[fmt][2])
             compare_tiles(got, sgl,
                           "%s run, %s tiles, against the single-image tiling of the pasted mosaic" % (mkey, fmt), res, key + ":tiles", rrep)
@@ -812,6 +839,19 @@ class Background(object):
             raise e
 
 
+_JVMS = {"sem": None}
+
+
+def tlc(ctx, module, **kw):
+    """ctx.tlc with a bounded heap (the JVM otherwise claims a quarter of the machine's memory per run and several model
+    checkers run side by side) and, in the thorough tier, at most four JVMs at a time."""
+    if _JVMS["sem"] is None:
+        _JVMS["sem"] = threading.BoundedSemaphore(8 if ctx.quick else 4)
+    kw.setdefault("jvm_opts", ["-Xmx2g" if ctx.quick else "-Xmx3g"])
+    with _JVMS["sem"]:
+        return ctx.tlc(module, **kw)
+
+
 def _noop(_):
     return os.getpid()
 
@@ -839,7 +879,7 @@ def replay_only(ctx):
         ctx.machinery("replay file %s carries no case" % ctx.replay_path)
     recs = [file_records(case, var["perm"], var["pars"]) for var, _runs in todo]
     outp = os.path.join(ctx.scratch, "real.json")
-    ctx.tlc("MCReal", extra={"MCReal.tla": real_module(recs)}, cfg_text=REAL_CFG, env={"OUT": outp}, workers=1, timeout=3000, count=False)
+    tlc(ctx, "MCReal", extra={"MCReal.tla": real_module(recs)}, cfg_text=REAL_CFG, env={"OUT": outp}, workers=1, timeout=3000, count=False)
     exps = json.load(open(outp))
     digests = []
     for (var, runs), exp in zip(todo, exps):
@@ -884,7 +924,7 @@ def run(ctx):
     recs = [file_records(cases[ci], var["perm"], var["pars"]) for ci, var in groups]
     bg = Background()
     outp = os.path.join(ctx.scratch, "real.json")
-    bg.start("real", lambda: ctx.tlc("MCReal", extra={"MCReal.tla": real_module(recs)}, cfg_text=REAL_CFG, env={"OUT": outp},
+    bg.start("real", lambda: tlc(ctx, "MCReal", extra={"MCReal.tla": real_module(recs)}, cfg_text=REAL_CFG, env={"OUT": outp},
                                      workers=1, timeout=3000, count=False))
     # ---- abstract state machines (--real-only: development switch, skips them)
     fam, par = abstract_sets(rng, quick)
@@ -893,21 +933,21 @@ def run(ctx):
         fam = {}
         ctx.note("real_only", True)
     for name, (ts, lits, ntiny) in sorted(fam.items()):
-        bg.start(name, (lambda name=name, ts=ts, lits=lits: ctx.tlc("MC_" + name.replace("-", "_"),
+        bg.start(name, (lambda name=name, ts=ts, lits=lits: tlc(ctx, "MC_" + name.replace("-", "_"),
                  extra={"MC_%s.tla" % name.replace("-", "_"): mc_decomps("MC_" + name.replace("-", "_"), lits)},
                  cfg_text=PASTE_CFG % ts, workers=3 if quick else 4, timeout=7200)))
     if not real_only:
-        bg.start("par", lambda: ctx.tlc("MCPar", extra={"MCPar.tla": mc_decomps("MCPar", par)},
+        bg.start("par", lambda: tlc(ctx, "MCPar", extra={"MCPar.tla": mc_decomps("MCPar", par)},
                                         cfg_text=PAR_CFG % (2, "TRUE", "TRUE", "PROPERTY Returns"), workers=3 if quick else 6, timeout=7200))
         # a lock that leaves its file behind when released: the clean-up is what empties the directory
-        bg.start("par-keepfile", lambda: ctx.tlc("MCParK", extra={"MCParK.tla": mc_decomps("MCParK", par[-1:] if quick else par[-4:])},
+        bg.start("par-keepfile", lambda: tlc(ctx, "MCParK", extra={"MCParK.tla": mc_decomps("MCParK", par[-1:] if quick else par[-4:])},
                                                  cfg_text=PAR_CFG % (2, "TRUE", "FALSE", ""), workers=1, timeout=3000))
         # without the lock the design loses contributions: TLC must say so
-        bg.start("par-nolock", lambda: ctx.tlc("MCParN", extra={"MCParN.tla": mc_decomps("MCParN", par[-1:])},
+        bg.start("par-nolock", lambda: tlc(ctx, "MCParN", extra={"MCParN.tla": mc_decomps("MCParN", par[-1:])},
                                                cfg_text=PAR_CFG % (2, "FALSE", "TRUE", ""), workers=1, timeout=3000,
                                                expect_violation=True, count=False))
         if not quick:
-            bg.start("par3", lambda: ctx.tlc("MCPar3", extra={"MCPar3.tla": mc_decomps("MCPar3", par[-8:])},
+            bg.start("par3", lambda: tlc(ctx, "MCPar3", extra={"MCPar3.tla": mc_decomps("MCPar3", par[-8:])},
                                              cfg_text=PAR_CFG % (3, "TRUE", "TRUE", "PROPERTY Returns"), workers=6, timeout=7200))
     ctx.note("abstract_models", {n: {"TS": v[0], "decompositions": len(v[1])} for n, v in fam.items()})
     if not real_only:
